@@ -445,6 +445,21 @@ func coldUnit(target string, kinds ...string) core.Unit {
 	return coldUnitN(target, 0, 8, kinds...)
 }
 
+// coldUnits: several cold starts per property — a window that exists once per process
+// (lazily built package state) is sampled once per process: three processes in the quick
+// tier (8, 64 and 128 goroutines), eight in the thorough tier.
+func coldUnits(tier string, target string, kinds ...string) []core.Unit {
+	workers := []int{8, 64, 128}
+	if tier == "thorough" {
+		workers = []int{8, 64, 128, 128, 64, 32, 128, 16}
+	}
+	var us []core.Unit
+	for i, w := range workers {
+		us = append(us, coldUnitN(target, i, w, kinds...))
+	}
+	return us
+}
+
 // coldUnitN: idx distinguishes several such units of one property (each is a process of
 // its own, i.e. one more cold start); workers is the number of goroutines released at once.
 func coldUnitN(target string, idx, workers int, kinds ...string) core.Unit {
